@@ -132,7 +132,7 @@ CLAIMS = {
                 'queries that select the same members (C09_mirror_equal_rank_ord for the four ordering pairs, C09_mirror_equal_rank_eq_paths '
                 'through C09_deep_equality_symmetric on documents with distinct keys, C09_mirror_equal_rank_eq_literals); <= / >= are < / > or == '
                 'on validated numbers. Correspondence + direct '
-                'oracle: families of related filters on containers of distinct members must satisfy the set identities on the real library. From the path TEXT: C09_comparison_filter_from_text (CmpParse.v, CmpAddr.v) — `$[?(@ inner OP number)]` for the six operators keeps exactly the members whose number at inner (float64 or json.Number) stands in the relation, != being the complement of ==; the harness sends such texts (driver confirms Coq fchain_path) over float64 / json.Number / mistyped / missing members with the expected selection computed from the document.',
+                'oracle: families of related filters on containers of distinct members must satisfy the set identities on the real library. From the path TEXT: C09_comparison_filter_from_text (CmpParse.v, CmpAddr.v) — `$[?(@ inner OP number)]` for the six operators keeps exactly the members whose number at inner (float64 or json.Number) stands in the relation, != being the complement of ==; the harness sends such texts (driver confirms Coq fchain_path) over float64 / json.Number / mistyped / missing members with the expected selection computed from the document. From the path TEXT (BoolText.v with C01_filter_retrieval): a filter step selects a subsequence of the members (index order / ascending key order), so C09_or_is_union_from_text, C09_and_is_intersection_from_text (in member order: filtering twice), C09_not_is_complement_from_text and C09_negated_basic_queries_from_text hold of the selections of the filters as written.',
         'note': NOTE_COMMON + ' The theorems assume good states and well-formed operand lists, which C03_invariant establishes for '
                 'well-formed trees. The equal-rank == duality between paths assumes the two values are decoded JSON (distinct keys, no foreign Go value).',
         'technique': 'Coq proof (list-level algebra bridged to the compute function) + relational oracle + correspondence'},
